@@ -38,6 +38,14 @@ Proof.
     + apply IH; [exact Hnd|exact H2|]. intros x Hx. apply H3. right. exact Hx.
 Qed.
 
+Section Gen.
+Variable val : Type.
+Local Notation bucket := (bucket val).
+Local Notation lfu := (lfu val).
+Local Notation op := (op val).
+Implicit Types (v vv : val) (l it : list (key * val)) (b n : bucket) (bs r : list bucket)
+  (s : lfu) (o : op) (ops : list op).
+
 (* ------------------------------------------------------------------ *)
 (** * Association lists: lookup / has_key / remove_key / replace_val *)
 
@@ -637,7 +645,7 @@ Proof. destruct o as [k|k v]; [apply get_cap|apply set_cap]. Qed.
 Lemma step_inv s o : 1 <= cap s -> inv s -> inv (fst (step s o)).
 Proof. intros Hc H. destruct o as [k|k v]; [exact (get_inv s k H)|exact (set_inv s k v Hc H)]. Qed.
 
-Lemma run_cons s o r :
+Lemma run_cons s o (r : list op) :
   run s (o :: r) =
   (fst (run (fst (step s o)) r),
    match o with OGet _ => snd (step s o) :: snd (run (fst (step s o)) r)
@@ -657,3 +665,74 @@ Proof.
   - exact (step_inv s o Hc H).
   - split; [exact I1|]. rewrite I2. apply step_cap.
 Qed.
+
+End Gen.
+Arguments lookup_none_iff {val}.
+Arguments lookup_some_in {val}.
+Arguments lookup_some_key {val}.
+Arguments lookup_in_nodup {val}.
+Arguments has_key_lookup {val}.
+Arguments remove_key_notin {val}.
+Arguments remove_key_keys {val}.
+Arguments remove_key_app {val}.
+Arguments remove_key_nodup {val}.
+Arguments remove_key_perm {val}.
+Arguments remove_key_head {val}.
+Arguments replace_val_keys {val}.
+Arguments replace_val_notin {val}.
+Arguments replace_val_nonnil {val}.
+Arguments all_items {val}.
+Arguments hd_gt {val}.
+Arguments asc {val}.
+Arguments all_gt {val}.
+Arguments nonempty {val}.
+Arguments inv {val}.
+Arguments all_gt_weaken {val}.
+Arguments asc_all_gt {val}.
+Arguments asc_strongly_sorted {val}.
+Arguments all_items_cons {val}.
+Arguments size_all_items {val}.
+Arguments bucket_items_all_gt {val}.
+Arguments bucket_items_incl {val}.
+Arguments bucket_items_notin {val}.
+Arguments bucket_items_nonnil {val}.
+Arguments bucket_items_in {val}.
+Arguments keys_all_items_cons {val}.
+Arguments find_key_none_iff {val}.
+Arguments find_key_some {val}.
+Arguments find_key_freq_gt {val}.
+Arguments push_next {val}.
+Arguments move_forward_hit {val}.
+Arguments move_forward_miss {val}.
+Arguments push_next_asc {val}.
+Arguments push_next_nonempty {val}.
+Arguments push_next_perm {val}.
+Arguments push_next_bucket_items {val}.
+Arguments move_forward_asc {val}.
+Arguments move_forward_nonempty {val}.
+Arguments all_items_move_forward_hit {val}.
+Arguments move_forward_perm {val}.
+Arguments move_forward_bucket_items {val}.
+Arguments dump_cache_asc {val}.
+Arguments dump_cache_nonempty {val}.
+Arguments dump_cache_all_items {val}.
+Arguments dump_cache_bucket_items {val}.
+Arguments create_node_asc {val}.
+Arguments create_node_nonempty {val}.
+Arguments create_node_perm {val}.
+Arguments create_node_bucket_items {val}.
+Arguments set_present_asc {val}.
+Arguments set_present_nonempty {val}.
+Arguments set_present_keys {val}.
+Arguments set_present_bucket_items {val}.
+Arguments empty_inv {val}.
+Arguments get_cap {val}.
+Arguments get_inv {val}.
+Arguments set_cap {val}.
+Arguments contains_false {val}.
+Arguments set_inv {val}.
+Arguments step_cap {val}.
+Arguments step_inv {val}.
+Arguments run_cons {val}.
+Arguments run_inv {val}.
+
